@@ -875,11 +875,20 @@ class Interp:
                 raise Unsupported("unhashable dict key in %s" % ast.unparse(node))
         raise Unsupported("subscript on %r" % (o,))
 
-    def deepcopy(self, v):
+    def deepcopy(self, v, memo=None):
+        """copy.deepcopy: fresh containers, sharing inside the copied structure preserved (memo)."""
+        if memo is None:
+            memo = {}
         if isinstance(v, (AList, list)):
-            return AList([self.deepcopy(x) for x in v])
+            if id(v) in memo:
+                return memo[id(v)]
+            out = NArr() if isinstance(v, NArr) else AList()
+            memo[id(v)] = out
+            for x in v:
+                out.append(self.deepcopy(x, memo))
+            return out
         if isinstance(v, tuple):
-            return tuple(self.deepcopy(x) for x in v)
+            return tuple(self.deepcopy(x, memo) for x in v)
         if isinstance(v, Lin):
             return AList(list(v.terms))
         if isinstance(v, Obj):
@@ -1150,6 +1159,31 @@ class Interp:
             vals = list(self.as_iter(args[0]))
             tot = self.builtin("sum", [vals], {}, node, env)
             return self.arith(ast.Div(), tot, len(vals))
+        if n.startswith(("np.", "numpy.", "math.")) and not kw and args:
+            # any other numeric library function: an opaque value (elementwise on arrays)
+            fname = n.split(".")[-1]
+
+            def op(*xs):
+                if any(isinstance(x, Num) for x in xs):
+                    return Num(sp.Function("F_" + fname)(*[_sym(x) for x in xs]), (n,) + tuple(_raw(x) for x in xs))
+                if all(isinstance(x, (int, float)) and not isinstance(x, bool) for x in xs):
+                    import math
+                    import builtins
+                    f = getattr(math, fname, None)
+                    if fname == "round":
+                        return float(builtins.round(*xs))
+                    if f is not None:
+                        try:
+                            return f(*xs)
+                        except Exception:
+                            pass
+                    return Num(sp.Function("F_" + fname)(*[_sym(x) for x in xs]), (n,) + tuple(_raw(x) for x in xs))
+                raise Unsupported("call of %s on %r" % (n, xs))
+            if isinstance(args[0], (NArr, Lin)):
+                arr = args[0].terms if isinstance(args[0], Lin) else args[0]
+                return NArr([op(x, *args[1:]) for x in arr])
+            if all(is_numeric(a) for a in args):
+                return op(*args)
         raise Unsupported("call of %s" % n)
 
     def partition_depth(self):
